@@ -167,6 +167,7 @@ func c20Exec(t *testing.T, sc *gen.Scenario, trace bool) *harness.Outcome {
 					if rq.TimeoutNs > 0 {
 						timeout = time.Duration(rq.TimeoutNs)
 					}
+					timeout = e.Run.Unique(timeout)
 					ctx, cancel := context.WithTimeout(simrt.WithReq(context.Background(), id), timeout)
 					defer cancel()
 					// bound = earliest instant (relative to the start) at which the call is told to stop
@@ -184,7 +185,7 @@ func c20Exec(t *testing.T, sc *gen.Scenario, trace bool) *harness.Outcome {
 					t0 := time.Now()
 					var cancelledAt time.Duration = -1
 					if rq.CancelNs > 0 {
-						tm := time.AfterFunc(time.Duration(rq.CancelNs), func() {
+						tm := time.AfterFunc(e.Run.Unique(time.Duration(rq.CancelNs)), func() {
 							cancelledAt = time.Since(t0)
 							simrt.Probe("cancel_by_timer")
 							cancel()
